@@ -8,7 +8,7 @@ namespace SyModel.Engine
 
 /-- one task keeps a present path present, unless it is a delete at or above it or a fault that
     leaves nothing at exactly that path -/
-theorem execTask_present (cfg : Cfg) (flt : Faults) (st : Exec) (t : Task) (p : Path)
+theorem execTask_present (cfg : Cfg) (flt : Faults) (st : Exec) (t : Task) (p : Path) (hp0 : p ≠ [])
     (hp : st.w.dst.get? p ≠ none) (hdel : t.act = .delete → isPrefix t.rel p = false)
     (hflt : t.rel = p → faultOf cfg flt t ≠ some none) :
     (execTask cfg flt st t).w.dst.get? p ≠ none := by
@@ -33,22 +33,13 @@ theorem execTask_present (cfg : Cfg) (flt : Faults) (st : Exec) (t : Task) (p : 
           | file m n =>
             rcases performCU_file hpl hperf with ⟨node, hg, _⟩ | ⟨_, fm, _, _, _, _, _, _, hg, _⟩ <;>
               (rw [← hr, hg]; simp)
-          | dir =>
-            unfold performCU at hperf
-            simp only [hpl] at hperf
-            cases hm : mkdirAll st.w.dst t.rel with
-            | none => simp [hm] at hperf
-            | some d =>
-              simp only [hm, Option.map_some, Option.some.injEq] at hperf; subst hperf
-              rcases mkdirAll_frame hm p with h1 | ⟨_, _, _, h2⟩
-              · simp only; rw [h1]; exact hp
-              · simp only; rw [h2]; simp
+          | dir => rw [← hr, (performCU_dir hpl hperf).1 (hr ▸ hp0)]; simp
     · rw [he]; exact hp
   · rcases execTask_frame cfg flt st t p hr hdel with h1 | ⟨_, h2, _⟩
     · rw [h1]; exact hp
     · rw [h2]; simp
 
-theorem foldl_present (cfg : Cfg) (flt : Faults) (ts : List Task) (st : Exec) (p : Path)
+theorem foldl_present (cfg : Cfg) (flt : Faults) (ts : List Task) (st : Exec) (p : Path) (hp0 : p ≠ [])
     (hp : st.w.dst.get? p ≠ none) (hdel : ∀ t ∈ ts, t.act = .delete → isPrefix t.rel p = false)
     (hflt : ∀ t ∈ ts, t.rel = p → faultOf cfg flt t ≠ some none) :
     (ts.foldl (execTask cfg flt) st).w.dst.get? p ≠ none := by
@@ -57,7 +48,7 @@ theorem foldl_present (cfg : Cfg) (flt : Faults) (ts : List Task) (st : Exec) (p
   | cons t ts ih =>
     rw [List.foldl_cons]
     apply ih _ _ (fun t' ht' => hdel t' (List.mem_cons_of_mem _ ht')) (fun t' ht' => hflt t' (List.mem_cons_of_mem _ ht'))
-    exact execTask_present cfg flt st t p hp (hdel t (List.mem_cons_self ..)) (hflt t (List.mem_cons_self ..))
+    exact execTask_present cfg flt st t p hp0 hp (hdel t (List.mem_cons_self ..)) (hflt t (List.mem_cons_self ..))
 
 theorem runF_refused_dst {cfg : Cfg} {flt : Faults} {scan : List SEntry} {dst : Map DNode} {n : Nat}
     (h : (runF cfg flt scan dst n).refused = true) : (runF cfg flt scan dst n).dst = dst := by
